@@ -151,30 +151,28 @@ inductive LoginRes where
   | denied
 deriving DecidableEq, Repr
 
-/-- `config_file::AuthProvider::login`.  `norm` is trim followed by NFKC.  `basic` is the decoded
-`Authorization: Basic` header (`None` if missing or malformed). -/
+/-- `config_file::AuthProvider::login` (as of the fix 2ee45739).  `norm` is trim followed by NFKC.
+`basic` is the decoded `Authorization: Basic` header (`None` if missing or malformed).  The user name
+is normalised first; password hash, salt and the user record (the code reads the map twice, both
+times under the normalised name) come from the same entry. -/
 def loginConfigFile (norm : String → String) (cfg : Config) (st : SessState)
     (basic : Option (String × String)) : LoginRes × SessState :=
   match basic with
   | none => (.invalid, st)
   | some (rawName, rawPw) =>
-    -- first look-up: the name as sent; an unknown name gets a fake hash that no password matches
-    match cfg.users.lookup rawName with
+    let name := norm rawName
+    let pw := norm rawPw
+    -- an unknown name gets a fake hash that no password matches
+    match cfg.users.lookup name with
     | none => (.invalid, st)
-    | some e =>
-      let name := norm rawName
-      let pw := norm rawPw
-      if (⟨pw, name, e.salt⟩ : HashTerm) ≠ e.hash then (.invalid, st) else
-      -- second look-up: the normalised name
-      match cfg.users.lookup name with
+    | some u =>
+      if (⟨pw, name, u.salt⟩ : HashTerm) ≠ u.hash then (.invalid, st) else
+      match cfg.roles.lookup u.role with
       | none => (.invalid, st)
-      | some u =>
-        match cfg.roles.lookup u.role with
-        | none => (.invalid, st)
-        | some role =>
-          if !role.isAllowed .Login none then (.denied, st) else
-          let (w, st') := encode cfg.key st name u.role
-          (.ok name u.role w, st')
+      | some role =>
+        if !role.isAllowed .Login none then (.denied, st) else
+        let (w, st') := encode cfg.key st name u.role
+        (.ok name u.role w, st')
 
 /-- `admin_token::AuthProvider::login`: the bearer token must be the admin token; the "session
 token" handed back is the admin token itself. -/
